@@ -38,6 +38,12 @@ def requests():
         Request("src/recon_buildblock/ProjMatrixByBinUsingInterpolation.cxx", fn=["stir::.*"], files=["/repo/src/recon_buildblock/ProjMatrixByBinUsingInterpolation.cxx"]),
         Request(RT, fn=["stir::.*"], files=["/repo/src/recon_buildblock/ProjMatrixByBinUsingRayTracing.cxx", "/repo/src/recon_buildblock/RayTraceVoxelsOnCartesianGrid.cxx"]),
         Request("src/buildblock/date_time_functions.cxx", fn=["stir::.*"], files=["/repo/src/buildblock/date_time_functions.cxx"]),
+        Request("src/buildblock/ProjDataInfoCylindricalNoArcCorr.cxx", fn=["stir::ProjDataInfoCylindrical.*::(blindly_equals|operator==)", "stir::ProjDataInfoCylindrical.*::get_(phi|m|t|s|tantheta|costheta|ring_radius|average_ring_difference|axial_sampling)"], files=["/repo/src/buildblock/ProjDataInfoCylindricalNoArcCorr.cxx", "/repo/src/include/stir/ProjDataInfoCylindrical.*\\.inl"]),
+        Request("src/buildblock/ProjDataInfoCylindricalArcCorr.cxx", fn=["stir::ProjDataInfoCylindrical.*::(blindly_equals|operator==)", "stir::ProjDataInfoCylindricalArcCorr::get_s"], files=["/repo/src/buildblock/ProjDataInfoCylindricalArcCorr.cxx", "/repo/src/include/stir/ProjDataInfoCylindricalArcCorr.inl"]),
+        Request("src/buildblock/ProjDataInfoCylindrical.cxx", fn=["stir::ProjDataInfoCylindrical::blindly_equals"], files=["/repo/src/buildblock/ProjDataInfoCylindrical.cxx"]),
+        Request("src/buildblock/ProjDataInfo.cxx", fn=["stir::ProjDataInfo::blindly_equals"], files=["/repo/src/buildblock/ProjDataInfo.cxx"]),
+        Request("src/buildblock/Scanner.cxx", fn=["stir::Scanner::operator=="], files=["/repo/src/buildblock/Scanner.cxx"]),
+        Request(DS, fn=["stir::DataSymmetriesForBins_PET_CartesianGrid::find_sym_op_.*"], files=["/repo/src/include/stir/recon_buildblock/DataSymmetriesForBins_PET_CartesianGrid.inl"]),
     ]
 
 
@@ -514,6 +520,126 @@ def rule_h_rows_have_no_hidden_state(ctx, groups, control):
     return n
 
 
+# members the coordinate getters read that are DERIVED from compared members (one line of reason each)
+EQUALITY_DERIVED = {
+    "m_offset": "computed lazily from min/max ring difference, ring spacing and the numbers of axial positions, all compared",
+    "ax_pos_num_offset": "idem",
+    "ring_diff_arrays_computed": "flag of the lazy computation",
+}
+
+
+def rule_i_equality_covers_geometry(ctx, getters, equals, scanner_eq):
+    """set_up() of a matrix keeps what it computed when the new projection-data geometry `==` the previous one.  That is only sound if
+    equal means equal in everything rows depend on: (1) every member the coordinate getters of the cylindrical geometries read
+    (get_phi, get_m, get_t, get_s, get_tantheta and the accessors they call) is compared by blindly_equals/operator== of the class or a
+    base (or is derived from compared members); (2) an equality operator uses every comparison it makes: a local that holds comparison
+    results is never overwritten without its previous value entering the new one."""
+    RULE = "C03.i-equality-covers-geometry"
+    n = 0
+    compared = set()
+    for f in equals:
+        if f.body is None:
+            continue
+        for m in f.walk():
+            if m.k == "MemberExpr" and m.get("mk") == "field":
+                compared.add(m.get("n"))
+    seen = set()
+    for f in getters:
+        if f.body is None or (f.file, f.body.line) in seen or not f.short.startswith("get_"):
+            continue
+        seen.add((f.file, f.body.line))
+        reads = sorted({m.get("n") for m in f.walk() if m.k == "MemberExpr" and m.get("mk") == "field" and m.c and m.c[0].strip().k == "CXXThisExpr"})
+        if not reads:
+            continue
+        missing = [r for r in reads if r not in compared and r not in EQUALITY_DERIVED]
+        ctx.ob(RULE, f.qn, "members-read:" + ",".join(reads), not missing, f.where(), "every member this getter reads is compared by the equality of the class chain%s" % ("" if not set(reads) & set(EQUALITY_DERIVED) else " (or derived from compared members)") if not missing else "%s reads `%s`, which no blindly_equals/operator== of the class chain compares: two geometries that differ in it are `equal`, and a matrix set up for the one keeps serving the rows of the other" % (f.short, ", ".join(missing)))
+        n += 1
+    # (2) no comparison result is thrown away
+    from engine.algebra import LocalDefs
+
+    for f in list(equals) + list(scanner_eq):
+        if f.body is None or (f.file, f.body.line, "eq") in seen:
+            continue
+        seen.add((f.file, f.body.line, "eq"))
+        defs = LocalDefs(f)
+        for d, vd in defs.decl.items():
+            if not re.fullmatch(r"(const )?bool", (vd.get("t") or vd.type or "").strip()):
+                continue
+            v = "v%d" % d
+            ws = defs.writes.get(v, [])
+            lost = [w for w in ws if w.k == "BinaryOperator" and w.op == "=" and v not in key(w.c[1])]
+            has_init = bool(vd.c)
+            bad = [w for w in lost if has_init or any(x is not w and x.line < w.line for x in ws)]
+            ctx.ob(RULE, f.qn, "accumulator:" + (vd.get("n") or v), not bad, (bad[0] if bad else vd).where(), "every assignment to the result keeps what was compared before" if not bad else "the result of the comparisons made so far is overwritten (`%s`): whatever differed before this line no longer matters" % key(bad[0], True)[:160])
+            n += 1
+    return n
+
+
+def rule_j_shift_arguments_agree(ctx, fns):
+    """Every symmetry operation that involves a shift along the axis is given the shift twice: in axial positions (relabels the bin)
+    and in image planes (moves the voxels).  They are the same shift: planes = num_planes_per_axial_pos[segment] * axial positions, at
+    every construction site, in both branches of a `shift enabled ? .. : 0` choice.  (For blocks the basic bin is not at axial
+    position 0: handing over the axial position itself labels the transformed row with another bin - defect F53.)"""
+    RULE = "C03.j-shift-arguments-agree"
+    import sympy
+    from engine.algebra import Algebra, LocalDefs
+
+    n = 0
+    seen = set()
+    for f in fns:
+        if f.body is None or (f.file, f.body.line) in seen:
+            continue
+        seen.add((f.file, f.body.line))
+        alg = Algebra(f, names=True)
+        defs = LocalDefs(f)
+
+        def resolve(e):
+            e = e.strip()
+            if e.k == "DeclRefExpr" and e.get("dk") == "local":
+                i1 = defs.single_def(e.get("d"))
+                if i1 is not None:
+                    return i1.strip()
+            return e
+
+        sites = set()
+        for c in f.walk():
+            if c.k not in ("CXXConstructExpr", "CXXTemporaryObjectExpr") or "SymmetryOperation_PET_CartesianGrid_" not in (c.callee or "") or c.line in sites:
+                continue
+            args = c.call_args()
+            cls = (c.callee or "").split("::")[-1]
+            if cls.endswith("_z_shift") and len(args) == 2:
+                a, z = args[0], args[1]
+            elif len(args) >= 3:
+                a, z = args[1], args[2]
+            else:
+                continue
+            sites.add(c.line)
+            a, z = resolve(a), resolve(z)
+            P = [x for x in alg.expr(z).free_symbols if "num_planes_per_axial_pos" in x.name] if z.k != "ConditionalOperator" else None
+            pairs = []
+            if a.k == "ConditionalOperator" and z.k == "ConditionalOperator" and key(a.c[0]) == key(z.c[0]):
+                pairs = [(a.c[1], z.c[1]), (a.c[2], z.c[2])]
+            elif a.k != "ConditionalOperator" and z.k != "ConditionalOperator":
+                pairs = [(a, z)]
+            if not pairs:
+                ctx.unrec(f.qn, "shift arguments of %s at line %d are not both plain or both conditional on the same test" % (cls, c.line))
+                continue
+            ok = True
+            shown = []
+            for aa, zz in pairs:
+                ea, ez = alg.expr(aa), alg.expr(zz)
+                ps = [x for x in ez.free_symbols if "num_planes_per_axial_pos" in x.name]
+                if ps:
+                    good = sympy.simplify(ez - ps[0] * ea) == 0
+                else:
+                    good = sympy.simplify(ez) == 0 and sympy.simplify(ea) == 0
+                ok = ok and bool(good)
+                shown.append("%s / %s" % (ea, ez))
+            ctx.ob(RULE, f.qn, "%s@%d" % (cls.replace("SymmetryOperation_PET_CartesianGrid_", ""), c.line), ok, c.where(), "plane shift = planes per axial position * axial shift" if ok else "axial shift and plane shift handed to %s differ: %s - the transformed row is labelled with another bin than the one whose voxels it holds" % (cls, "; ".join(shown)))
+            n += 1
+    return n
+
+
 def run(ctx):
     ctx.explanation = (
         "Decides: (a) ProjMatrixByBin::cache_key packs sign and magnitude of axial, tangential and TOF index into pairwise disjoint "
@@ -549,6 +675,16 @@ def run(ctx):
     if all(u is not None for u in uh):
         rule_h_rows_have_no_hidden_state(ctx, [("interpolation matrix (ProjMatrixByBinUsingInterpolation.cxx)", uh[0].functions), ("ray-tracing matrix (ProjMatrixByBinUsingRayTracing.cxx, RayTraceVoxelsOnCartesianGrid.cxx)", uh[1].functions)], uh[2].functions)
         ctx.require_count("C03.h-rows-have-no-hidden-state", 2)
+    ui = [ctx.ex.get(r) for r in reqs[10:15]]
+    if all(u is not None for u in ui):
+        getters = [f for u in ui[:2] for f in u.functions if f.short.startswith("get_")]
+        equals = [f for u in ui[:4] for f in u.functions if f.short in ("blindly_equals", "operator==")]
+        rule_i_equality_covers_geometry(ctx, getters, equals, ui[4].functions)
+        ctx.require_count("C03.i-equality-covers-geometry", 8)
+    uj = ctx.ex.get(reqs[15])
+    if uj is not None:
+        rule_j_shift_arguments_agree(ctx, uj.functions)
+        ctx.require_count("C03.j-shift-arguments-agree", 30)
     ctx.require_count("C03.a-cache-key-injective", 12)
     ctx.require_count("C03.b-cached-row-is-finished-row", 4)
     ctx.require_count("C03.c-setup-drops-cache", 8)
